@@ -16,9 +16,11 @@ import (
 	"math/rand"
 	"os"
 	"path/filepath"
+	"runtime"
 	"sync"
 	"time"
 
+	"github.com/piotrnar/gocoin/lib/others/memory"
 	"github.com/piotrnar/gocoin/lib/utxo"
 
 	"verifharness/conc"
@@ -32,11 +34,61 @@ const (
 
 func amt(u int64) conc.Amt { return conc.Amt{U: u} }
 
+// vfAlloc: an allocator for UTXO records (utxo.Memory_Malloc / Memory_Free) that makes any use of a freed record
+// observable: Free overwrites the record with 0xEE and queues it; Malloc hands the oldest queued buffer of that
+// size out again once `delay` others wait behind it (a recycling allocator, as lib/others/memory is, but with
+// poisoning).  Freed memory must never be read, so on correct code nothing changes.
+type vfAlloc struct {
+	mu            sync.Mutex
+	pool          map[int][]*[]byte
+	delay         int
+	frees, reuses int64
+}
+
+func (a *vfAlloc) vfAllocMalloc(le int) *[]byte {
+	a.mu.Lock()
+	if q := a.pool[le]; len(q) > a.delay {
+		b := q[0]
+		a.pool[le] = q[1:]
+		a.reuses++
+		a.mu.Unlock()
+		return b
+	}
+	a.mu.Unlock()
+	p := make([]byte, le)
+	return &p
+}
+
+func (a *vfAlloc) vfAllocFree(b *[]byte) {
+	for i := range *b {
+		(*b)[i] = 0xEE
+	}
+	a.mu.Lock()
+	a.frees++
+	a.pool[len(*b)] = append(a.pool[len(*b)], b)
+	a.mu.Unlock()
+	runtime.Gosched() // let whoever might still be reading the record run now (matters at low GOMAXPROCS)
+}
+
+func (a *vfAlloc) nFrees() int64 {
+	if a == nil {
+		return 0
+	}
+	return a.frees
+}
+
+func (a *vfAlloc) nReuses() int64 {
+	if a == nil {
+		return 0
+	}
+	return a.reuses
+}
+
 // stressScenario: branch A = 1,2,3,7,8   branch B = 1,4,5,6 (longer than 1,2,3; shorter than A in the end)
 func stressScenario() conc.Scenario {
 	sc := conc.Scenario{Blk: conc.IntMap[conc.BlkDef]{}, Tx: conc.IntMap[conc.TxDef]{}, BaseH: sBaseH}
 	cb := func(b int) []conc.OutDef { return []conc.OutDef{{Amt: amt(50), Addr: 900 + b, St: conc.StP2SH}} }
-	var t1, t2, t2w, t3, t3b, t4, t4w, t5, t7 []int
+	var t1, t2, t2w, t3, t3b, t3w, t4, t4w, t5, t5w, t7 []int
 	for i := 1; i <= sNTx; i++ {
 		// block 1: two matured base coinbases in, three outputs of different types out
 		id := 1000 + i
@@ -52,9 +104,17 @@ func stressScenario() conc.Scenario {
 			sc.Tx[20000+x] = conc.TxDef{Ver: 2, Ins: []conc.InDef{{Tx: id, Vout: 4 + m, Ok: true}},
 				Outs: []conc.OutDef{{Amt: conc.Amt{E: 40000000}, Addr: 6000 + x, St: conc.StP2SH}, {Amt: conc.Amt{E: 40000000}, Addr: 7000 + x, St: conc.StP2PKH}}}
 			t2w = append(t2w, 20000+x)
+			// block 3 spends one output of each of them: 288 different records deleted / rewritten by one block,
+			// which the first reorganisation undoes again (the undo file must restore them exactly)
+			sc.Tx[30000+x] = conc.TxDef{Ver: 2, Ins: []conc.InDef{{Tx: 20000 + x, Vout: 1, Ok: true}},
+				Outs: []conc.OutDef{{Amt: conc.Amt{E: 30000000}, Addr: 11000 + x, St: conc.StP2SH}}}
+			t3w = append(t3w, 30000+x)
 			sc.Tx[40000+x] = conc.TxDef{Ver: 2, Ins: []conc.InDef{{Tx: id, Vout: 4 + m, Ok: true}},
 				Outs: []conc.OutDef{{Amt: conc.Amt{E: 30000000}, Addr: 8000 + x, St: conc.StP2SH}, {Amt: conc.Amt{E: 30000000}, Addr: 9000 + x, St: conc.StP2WPKH}, {Amt: conc.Amt{E: 30000000}, Addr: 10000 + x, St: conc.StP2SH}}}
 			t4w = append(t4w, 40000+x)
+			sc.Tx[50000+x] = conc.TxDef{Ver: 2, Ins: []conc.InDef{{Tx: 40000 + x, Vout: 1, Ok: true}, {Tx: 40000 + x, Vout: 3, Ok: true}},
+				Outs: []conc.OutDef{{Amt: conc.Amt{E: 40000000}, Addr: 12000 + x, St: conc.StP2SH}}}
+			t5w = append(t5w, 50000+x)
 		}
 		t1 = append(t1, id)
 		// block 2 (branch A): all three outputs of the block-1 transaction, signatures verified in parallel
@@ -91,9 +151,9 @@ func stressScenario() conc.Scenario {
 	}
 	sc.Blk[1] = conc.BlkDef{Parent: 0, Txs: t1, Cbouts: cb(1)}
 	sc.Blk[2] = conc.BlkDef{Parent: 1, Txs: append(t2, t2w...), Cbouts: cb(2)}
-	sc.Blk[3] = conc.BlkDef{Parent: 2, Txs: append(t3, t3b...), Cbouts: cb(3)}
+	sc.Blk[3] = conc.BlkDef{Parent: 2, Txs: append(append(t3, t3b...), t3w...), Cbouts: cb(3)}
 	sc.Blk[4] = conc.BlkDef{Parent: 1, Txs: append(t4, t4w...), Cbouts: cb(4)}
-	sc.Blk[5] = conc.BlkDef{Parent: 4, Txs: t5, Cbouts: cb(5)}
+	sc.Blk[5] = conc.BlkDef{Parent: 4, Txs: append(t5, t5w...), Cbouts: cb(5)}
 	sc.Blk[6] = conc.BlkDef{Parent: 5, Txs: nil, Cbouts: cb(6)}
 	sc.Blk[7] = conc.BlkDef{Parent: 3, Txs: t7, Cbouts: cb(7)}
 	sc.Blk[8] = conc.BlkDef{Parent: 7, Txs: nil, Cbouts: cb(8)}
@@ -163,7 +223,23 @@ func cmdStress(args []string) {
 	rounds := fs.Int("rounds", 6, "")
 	yield := fs.Bool("yield", true, "")
 	compress := fs.Bool("compress", false, "compressed UTXO records (chain.NewChanOpts.CompressUTXO)")
+	alloc := fs.String("alloc", "goheap", "goheap | memory (lib/others/memory, as the client installs it) | poison (freed records are overwritten with 0xEE and reused late)")
 	fs.Parse(args)
+	var pa *vfAlloc
+	switch *alloc {
+	case "goheap":
+	case "memory":
+		a := memory.NewAllocator()
+		utxo.Memory_Malloc = a.Malloc
+		utxo.Memory_Free = a.Free
+	case "poison":
+		pa = &vfAlloc{pool: map[int][]*[]byte{}, delay: 48}
+		utxo.Memory_Malloc = pa.vfAllocMalloc
+		utxo.Memory_Free = pa.vfAllocFree
+	default:
+		fmt.Fprintln(os.Stderr, "unknown allocator mode", *alloc)
+		os.Exit(2)
+	}
 	w, err := conc.NewWorld(stressScenario(), *dir, *compress)
 	if err != nil {
 		fmt.Fprintln(os.Stderr, "world:", err)
@@ -322,5 +398,5 @@ func cmdStress(args []string) {
 		out.Put(v)
 	}
 	out.Put(map[string]interface{}{"summary": true, "rounds": *rounds, "deliveries": (*rounds + 1) * len(stressOrder), "saves": saves,
-		"watcher_checks": checks, "violations": len(viol), "ref": ref, "compress": *compress})
+		"watcher_checks": checks, "violations": len(viol), "ref": ref, "compress": *compress, "alloc": *alloc, "frees": pa.nFrees(), "reuses": pa.nReuses()})
 }
